@@ -588,6 +588,44 @@ pub fn run(tier: Tier) -> i32 {
     }
     check_from_meta(&mut acc);
     check_from_meta_formats(&mut acc);
+    // the maps between format versions and their type strings: a bijection on the known names,
+    // nothing else is a version (near misses: case, trailing slash, whitespace, other version)
+    {
+        let pv = [(PredicateVer::LinkV0_2, PRED_TYPES[0]), (PredicateVer::SLSAProvenanceV0_1, PRED_TYPES[1]), (PredicateVer::SLSAProvenanceV0_2, PRED_TYPES[2])];
+        for (v, name) in pv {
+            acc.evaluations += 2;
+            if String::from(v) != name {
+                acc.violation("version-string-map:predicate", &format!("{name} is written as {}", String::from(v)), || json!({"kind": "version-map", "name": name}));
+            }
+            match PredicateVer::try_from(name.to_string()) {
+                Ok(back) if ver_index(back) == ver_index(v) => acc.outcome("version-map-ok"),
+                _ => acc.violation("version-string-map:predicate", &format!("{name} is not read back as the version it names"), || json!({"kind": "version-map", "name": name})),
+            }
+        }
+        let sv = [(StatementVer::Naive, "link"), (StatementVer::V0_1, "https://in-toto.io/Statement/v0.1")];
+        for (v, name) in sv {
+            acc.evaluations += 2;
+            if String::from(v) != name {
+                acc.violation("version-string-map:statement", &format!("{name} is written as {}", String::from(v)), || json!({"kind": "version-map", "name": name}));
+            }
+            match StatementVer::try_from(name.to_string()) {
+                Ok(back) if back == v => acc.outcome("version-map-ok"),
+                _ => acc.violation("version-string-map:statement", &format!("{name} is not read back as the version it names"), || json!({"kind": "version-map", "name": name})),
+            }
+        }
+        let known: Vec<&str> = PRED_TYPES[..3].iter().copied().chain(["link", "https://in-toto.io/Statement/v0.1"]).collect();
+        for k in &known {
+            for near in [k.to_uppercase(), format!("{k}/"), format!(" {k}"), format!("{k} "), k.replace("v0.", "v1."), k.replace("https", "http"), String::new()] {
+                if known.contains(&near.as_str()) {
+                    continue;
+                }
+                acc.evaluations += 2;
+                if PredicateVer::try_from(near.clone()).is_ok() || StatementVer::try_from(near.clone()).is_ok() {
+                    acc.violation("version-string-map:near-miss-accepted", &format!("{near:?} is accepted as a format version"), || json!({"kind": "version-map", "name": near}));
+                }
+            }
+        }
+    }
     acc.sample(|| json!({"kind": "predicate", "document": preds[100].0, "json": preds[100].1}));
     acc.sample(|| json!({"kind": "statement", "document": stmts[5].0, "json": stmts[5].1}));
     // observation: StatementWrapper's derived Serialize is externally tagged and is not what its Deserialize reads
@@ -611,6 +649,7 @@ pub fn replay(case: &Value) -> Value {
             let contained = (0..3).find(|i| typed[*i].is_ok());
             check_statement(&mut acc, "replay", d, declared, contained);
         }
+        Some("version-map") => return json!({"note": "re-run ./check C19 quick", "violation": null}),
         Some("from_meta") => check_from_meta(&mut acc),
         Some("from_meta_format") => check_from_meta_formats(&mut acc),
         _ => {}
